@@ -401,6 +401,13 @@ def monitorOp (mu : Mon) (prev : Args) (toks : List String) (implOk : Bool) (out
       (match mu.cap0 with
         | some (some c) => if sc > c then [mk "C13" "C13/cap-exceeded" s!"supply={sc} cap0={c}"] else []
         | _ => []) ++
+      -- the tokens in circulation (sum of the listed balances), not only the recorded supply
+      (let sumPrev := (obsBal prev).foldl (fun acc p => acc + p.2) 0
+       (if sumBal > sumPrev && !(kind == "mint" && prev.str "minter" == snd && implOk) then
+          [mk "C13" "C13/tokens-created-without-mint" s!"sum of balances rose {sumPrev}->{sumBal} by {kind} from {snd}, minter={prev.str "minter"}"] else []) ++
+       (match mu.cap0 with
+        | some (some c) => if sumBal > c && sumBal > sumPrev then [mk "C13" "C13/circulation-above-cap" s!"sum of balances={sumBal} cap0={c}"] else []
+        | _ => [])) ++
       (if minterStr != "-" && capStr != optNatStr (mu.cap0.getD none) then
         [mk "C13" "C13/cap-changed" s!"cap={capStr} cap0={optNatStr (mu.cap0.getD none)}"] else []) ++
       (if minterStr != prev.str "minter" && !(kind == "update_minter" && prev.str "minter" == snd && implOk) then
